@@ -1,4 +1,4 @@
 CONSTANTS Which = "jq"  MaxLen = 9
-SPECIFICATION Spec
+SPECIFICATION SimSpec
 INVARIANT Emit
 CHECK_DEADLOCK FALSE
